@@ -81,7 +81,7 @@ def make_case(i, rng, tier):
         label = "random:%d" % n
         recs.append(dict(kind="random-bytes", cls="raw", depth=0, regions=[]))
     elif r < 0.75:
-        inp = common.gen_input(rng, common.target_for(i, rng))
+        inp = common.gen_input(rng, common.target_for(i, rng), huge=True)
         o = model.decode(inp["root"], inp["data"], cc=inp["cc"], enc=inp["enc"])
         data = inp["data"]
         if inp["root"] == model.STREAM and rng.random() < 0.4:
@@ -107,13 +107,13 @@ def make_case(i, rng, tier):
             data = rng.choice(pk)
             label = "corpus"
         else:
-            inp = common.gen_input(rng, common.target_for(i, rng))
+            inp = common.gen_input(rng, common.target_for(i, rng), huge=True)
             data = inp["data"]
             label = "wellformed:" + inp["label"]
         root, cc, enc = random_root(rng)
         recs.append(dict(kind="wrong-type", cls="arg", depth=0, regions=[]))
     main = common.spec("main", root, data, cc, enc, strict=True, source="counting")
-    tasks, sched = common.perturb(rng, [main], p_by=0.1)
+    tasks, sched = common.perturb(rng, [main], p_by=0.1, roots=True)
     return {"input": {"root": root, "cc": cc, "enc": enc, "label": label}, "faults": recs, "tasks": tasks, "schedule": sched}
 
 
